@@ -408,6 +408,12 @@ def removeUnused (pts : Array (V3 K)) (idx : Array T3) : Array (V3 K) × Array T
   let rm := fun (i : Nat) => (remap[i]?).getD 0
   (p, idx.map fun t => ⟨rm t.a, rm t.b, rm t.c⟩)
 
+/-- `utils::remove_unused_points` called as a public function: `none` = the index panic of its marking pass
+(`used[i[k] as usize] = true` with an index `>= points.len()`); in `try_convex_hull` the indices are in range (`Theorems11`) -/
+def removeUnusedPub (pts : Array (V3 K)) (idx : Array T3) : Option (Array (V3 K) × Array T3) :=
+  if idx.all (fun t => decide (t.a < pts.size) && decide (t.b < pts.size) && decide (t.c < pts.size)) then
+    some (removeUnused pts idx) else none
+
 /-- the facets of the final state as an index buffer -/
 def validTriangles (ts : Array (Facet K)) : Array T3 := (ts.filter (·.valid)).map (·.pts)
 
